@@ -48,7 +48,7 @@ def gen_config(r, kind, ents):
         opts.append("-T")
         cfg["notail"] = True
     if r.random() < 0.25:
-        opts += ["-B", str(r.choice([1024, 4096, 65536]))]
+        opts += ["-B", str(r.choice([1024, 4096, 65536, 1536, 3000, 5000, 4160]))]      # any value >= 1024 is accepted, not only powers of two
     cfg["devblk"] = int(opts[opts.index("-B") + 1]) if "-B" in opts else 4096
     cfg["def_mtime"] = 0
     if r.random() < 0.4:
